@@ -29,9 +29,10 @@ def fmatch(f, key):
 
 
 class DiscoveryOracle:
-    def __init__(self, filters, node="N"):
+    def __init__(self, filters, node="N", rate=1.0):
         self.filters = [tuple(f) for f in filters]
         self.node = node
+        self.rate = rate  # clock rate of the node (drift fault)
         self.sess = SessionModel()
         self.cands = {}  # (src,key) -> list of deadlines (INF, finite, DEAD)
         self.certain = {}  # (src,key) -> bool
@@ -75,14 +76,17 @@ class DiscoveryOracle:
         """certain removal of (src,key): every registered listener that was told
         'offered' is owed one 'stopped'"""
         src, key = sk
+        marked = set()
         for l in self.registered_matching(key):
+            if (l, src, key) in self.mark:
+                marked.add(l)  # an offer of this very epoch may not have been reported yet (its callback follows in the log)
             self.mark.discard((l, src, key))
         if sk not in self.cands:
             return  # nothing was live: nothing is owed
         owed = self.certain.get(sk, False) and all(d != DEAD for d in self.cands[sk])
-        for (l, s, k), (kind, _) in self.latest.items():
-            if (s, k) == sk and kind == "offered":
-                self.explain.setdefault((l, s, k), []).append((cause, self.epoch, owed))
+        told = {l for (l, s, k), (kind, _) in self.latest.items() if (s, k) == sk and kind == "offered"}
+        for l in told | marked:
+            self.explain.setdefault((l, src, key), []).append((cause, self.epoch, owed and l in told))
         self.cands.pop(sk, None)
         self.certain.pop(sk, None)
 
@@ -120,7 +124,7 @@ class DiscoveryOracle:
                         self.probe("unwatched_stopoffer")
                     continue
                 self.epoch_kinds.add("offer")
-                d = INF if e.ttl == refdec.TTL_FOREVER else T + e.ttl
+                d = INF if e.ttl == refdec.TTL_FOREVER else T + e.ttl * self.rate
                 old = self.cands.get(sk, [])
                 due = [x for x in old if x != DEAD and x <= T + RES]
                 if due:
@@ -276,6 +280,8 @@ class DiscoveryOracle:
     def walk(self, log):
         self.busy = [(e[2] - e[5], e[2]) for e in log if e[4] == "busy"]  # part of the plan: known up front
         for idx, (seq, it, T, actor, kind, data) in enumerate(log):
+            if kind == "crash" and f"{actor}{data}" == self.node:
+                break  # this incarnation is gone: nothing more happens in it, nothing more is owed by it
             if kind == "idle":
                 self.on_idle(T)
             elif actor != self.node and kind != "busy":
